@@ -37,7 +37,7 @@ pub fn big_content() -> String {
 }
 
 pub fn layouts() -> Vec<Layout> {
-    let common: Vec<(&str, &str)> = vec![("src/a.txt", "alpha"), ("src/b.csv", "bravo"), ("src/sub/c.txt", "charlie"), ("src/sub/deep/d.txt", "delta"), ("v.txt", "v-one"), ("other/a.txt", "not declared")];
+    let common: Vec<(&str, &str)> = vec![("src/a.txt", "alpha"), ("src/b.csv", "bravo"), ("src/sub/c.txt", "charlie"), ("src/sub/deep/d.txt", "delta"), ("src/e.min.txt", "echo: a dot in the stem"), ("v.txt", "v-one"), ("other/a.txt", "not declared")];
     let mk = |name: &'static str, yaml: &'static str, writes: Vec<&'static str>| Layout { name, projects: vec![("", None, yaml)], target: "t", files: common.clone(), writes };
     vec![
         mk("file-path", "t:\n  build: ':'\n  input: [{paths: [src/a.txt]}]\n  output: [{paths: [out/o.txt]}]\n", vec!["out/o.txt"]),
@@ -226,6 +226,8 @@ pub fn ops_for(l: &Layout) -> Vec<Op> {
             Create("src/new.zzz"),
             Create("src/sub/deep/new.txt"),
             RewriteSameLength("src/b.csv"),
+            RewriteSameLength("src/e.min.txt"),
+            Create("src/new.min.txt"),
             RewriteSameLength("src/sub/deep/d.txt"),
             Delete("src/sub/c.txt"),
             RewriteSameLength("other/a.txt"),
